@@ -50,7 +50,19 @@ func (e *sched) step(st *sState, in ssa.Instruction) {
 		elemT := x.Type().Underlying().(*types.Pointer).Elem()
 		if at, ok := elemT.Underlying().(*types.Array); ok {
 			arr := &hArray{elems: make([]sVal, at.Len())}
+			inner, nested := at.Elem().Underlying().(*types.Array)
 			for i := range arr.elems {
+				if nested && e.proto == nil && inner.Len() <= 64 && at.Len() <= 64 {
+					// an array of arrays: every row is an array object of its own, the cell holds the row
+					rid := e.newID()
+					row := &hArray{elems: make([]sVal, inner.Len())}
+					for j := range row.elems {
+						row.elems[j] = e.zeroOf(inner.Elem())
+					}
+					st.heap[rid] = row
+					arr.elems[i] = sPtr{rid, -1}
+					continue
+				}
 				arr.elems[i] = e.zeroOf(at.Elem())
 			}
 			st.heap[id] = arr
@@ -305,6 +317,11 @@ func (e *sched) step(st *sState, in ssa.Instruction) {
 				st.vals[x] = v
 				return
 			}
+			// scalar[k:] of a scalar of known length: the same bytes seen from byte k on
+			if hi < 0 && v.n >= 0 && lo > 0 && v.off+lo <= v.n {
+				st.vals[x] = sBytes{name: v.name, n: v.n, off: v.off + lo}
+				return
+			}
 		case sTab:
 			// table[:k]: the first k sub-tables / rows (the same table seen through a shorter window)
 			if n, ok := e.tabLen(v); ok && !v.ptr && lo <= 0 && (hi < 0 || hi <= n) {
@@ -323,6 +340,17 @@ func (e *sched) step(st *sState, in ssa.Instruction) {
 		switch v := a.(type) {
 		case sPtr: // pointer to array
 			if iconst {
+				// a row of an array of arrays is the row object
+				if arr, ok := st.heap[v.id].(*hArray); ok && v.idx == -1 && ic.IsInt64() && ic.Int64() >= 0 && int(ic.Int64()) < len(arr.elems) {
+					if rp, isRow := arr.elems[ic.Int64()].(sPtr); isRow && rp.idx == -1 {
+						if pt, ok := x.Type().Underlying().(*types.Pointer); ok {
+							if _, isArr := pt.Elem().Underlying().(*types.Array); isArr {
+								st.vals[x] = rp
+								return
+							}
+						}
+					}
+				}
 				st.vals[x] = sPtr{v.id, int(ic.Int64())}
 			} else if s, ok := iv.(*sSym); ok {
 				st.vals[x] = sSymElem{v.id, s}
@@ -343,7 +371,7 @@ func (e *sched) step(st *sState, in ssa.Instruction) {
 				st.vals[x] = sOpaque{"index"}
 				return
 			}
-			st.vals[x] = sTab{name: "\x00bytes:" + v.name, path: []int{int(ic.Int64()), v.n}, ptr: true}
+			st.vals[x] = sTab{name: "\x00bytes:" + v.name, path: []int{int(ic.Int64()) + v.off, v.n}, ptr: true}
 		case sTab:
 			if v.ptr {
 				e.fail("index of a table pointer at %s", e.p.InstrPos(x))
@@ -410,8 +438,15 @@ func (e *sched) step(st *sState, in ssa.Instruction) {
 		// a slice of concrete length: a fresh array object
 		if n, ok := constOf(e.get(st, x.Len)); ok && n.IsInt64() && n.Int64() >= 0 && n.Int64() <= 4096 {
 			if sl, isSl := x.Type().Underlying().(*types.Slice); isSl {
+				// the backing array has the capacity; the slice its length
+				capN := n.Int64()
+				if x.Cap != nil {
+					if c, ok := constOf(e.get(st, x.Cap)); ok && c.IsInt64() && c.Int64() >= capN && c.Int64() <= 4096 {
+						capN = c.Int64()
+					}
+				}
 				id := e.newID()
-				arr := &hArray{elems: make([]sVal, n.Int64())}
+				arr := &hArray{elems: make([]sVal, capN)}
 				for i := range arr.elems {
 					arr.elems[i] = e.zeroOf(sl.Elem())
 				}
@@ -1370,7 +1405,7 @@ func (e *sched) builtin(st *sState, b *ssa.Builtin, call *ssa.Call) sVal {
 			return sInt{big.NewInt(int64(v.hi - v.lo))}
 		case sBytes:
 			if v.n >= 0 {
-				return sInt{big.NewInt(int64(v.n))}
+				return sInt{big.NewInt(int64(v.n - v.off))}
 			}
 			return symLin(map[string]*big.Rat{"len(" + v.name + ")": big.NewRat(1, 1)})
 		case sTab:
@@ -1386,6 +1421,29 @@ func (e *sched) builtin(st *sState, b *ssa.Builtin, call *ssa.Call) sVal {
 			}
 		}
 		return sOpaque{"len"}
+	case "cap":
+		if v, ok := e.get(st, call.Call.Args[0]).(sSlice); ok {
+			if arr, ok := st.heap[v.id].(*hArray); ok {
+				return sInt{big.NewInt(int64(len(arr.elems) - v.lo))}
+			}
+		}
+		return sOpaque{"cap"}
+	case "append":
+		// within the capacity of the backing array: the elements are stored behind the slice
+		if len(call.Call.Args) == 2 {
+			dst, ok1 := e.get(st, call.Call.Args[0]).(sSlice)
+			src, ok2 := e.get(st, call.Call.Args[1]).(sSlice)
+			if ok1 && ok2 {
+				da, okd := st.heap[dst.id].(*hArray)
+				sa, oks := st.heap[src.id].(*hArray)
+				n := src.hi - src.lo
+				if okd && oks && dst.hi+n <= len(da.elems) {
+					copy(da.elems[dst.hi:dst.hi+n], sa.elems[src.lo:src.hi])
+					return sSlice{dst.id, dst.lo, dst.hi + n}
+				}
+			}
+		}
+		return sOpaque{"append"}
 	}
 	return sOpaque{"builtin " + b.Name()}
 }
